@@ -18,7 +18,7 @@ VERUS_UNITS = {
     'U-MP-X': dict(module='contracts.verus.msgpack_transcode', min_verified=24, timeout=600,
                    native_search=dict(src='src/msgpack.rs', file='msgpack_search.rs'),
                    props=['C03', 'C18', 'C04', 'C02']),
-    'U-MAIN-V': dict(module='contracts.verus.cli_main', min_verified=5, timeout=600,
+    'U-MAIN-V': dict(module='contracts.verus.cli_main', min_verified=7, timeout=600,
                      props=['C14', 'C03', 'C15', 'C13']),
     'U-CAP-V': dict(module='contracts.verus.input_capture', min_verified=18, timeout=600,
                     props=['C09', 'C02', 'C04', 'C05', 'C12']),
@@ -418,7 +418,7 @@ PROPERTIES = {
                      'complete documents delivered before a reader fault (needs the parsers)']),
     'C14': dict(
         explanation='Extension table: extension_format == table(ascii_lowercase(ext)) for every extension byte string of length 0..=7 that Path::extension may return; Stdin => None; '
-                    'format names table of try_parse_format (Kani, U-EXT). Precedence and stdin-once: Verus (U-MAIN-V) proves on the verbatim main() that the i-th translate call receives '
+                    'format names table of try_parse_format (Kani, U-EXT, strings <= 3 B; Verus U-MAIN-V, every string). Precedence and stdin-once: Verus (U-MAIN-V) proves on the verbatim main() that the i-th translate call receives '
                     'from == (-f if given, else extension_format(path_i), else None = detection), resolved afresh for every input, one call per path in iterator order, and that at most one '
                     'of the translated inputs is standard input (a second `-` is refused before anything is read).',
         assumptions=['std::path::Path::extension returns the last extension (stubbed by its std contract)',
